@@ -80,6 +80,8 @@ func c16Gen(g *core.Gen) {
 		}
 		_ = s
 	}
+	// the same displaced-slice search right after another generation of the set (same ids, other content) was decoded in this process
+	genGenerationCases(func(c *p2Case) { c.Extra = []string{"c16"}; g.Emit(c) }, true)
 	// slice sizes at and around powers of two up to 64 KiB (rolling-CRC tables are built per window length): a 5-slice
 	// file, insert / delete at a few positions, second file present
 	bigS := []int{2000, 4096, 16384, 32764, 32768, 32772, 65536}
